@@ -44,7 +44,6 @@ CONSTANTS
   Kinds,                   \* enabled call kinds
   Threads,                 \* sequence of caller ids; sequential mode uses the first only
   Sequential,              \* TRUE: big steps
-  FaithfulGC,              \* TRUE: GC as the code does it (IsUnused ignores memory)
   Preload                  \* sequence of calls executed (big steps) to build the initial state
 
 VARIABLES w, op
@@ -123,9 +122,10 @@ MulOvf(a, b, MaxI) ==
   ELSE [c |-> c, ok |-> TDiv(c, b) = a]
 \* TRUE = the reservation is granted
 CheckMemoryCode(mem, rsvp, limit, prio, MaxI) ==
-  IF limit = MaxI THEN TRUE                                  \* "Special case where we've set max limits."
-  ELSE LET add == AddOvf(mem, rsvp, MaxI)
-           mul == MulOvf(1 + prio, limit, MaxI)
+  LET add == AddOvf(mem, rsvp, MaxI) IN
+  \* "Special case where we've set max limits." -- taken only when the sum is representable (64fc8f8)
+  IF limit = MaxI /\ add.ok THEN TRUE
+  ELSE LET mul == MulOvf(1 + prio, limit, MaxI)
            thr == IF ~mul.ok THEN (limit * (1 + prio)) \div 256      \* the big.Int path: exact
                   ELSE TDiv(mul.c, 256)
        IN ~(~add.ok \/ add.c > thr)
@@ -392,15 +392,13 @@ RunAll(ww, t) == LET r == Exec1(ww, t) IN IF r.done THEN r ELSE RunAll(r.w, t)
 Big(ww, t, c) == RunAll(Start(ww, t, c), t)
 
 (***************************************************************************)
-(* Scope GC (resourceManager.gc): protocol and peer scopes with refCnt <= 0*)
-(* and no streams/conns/fd are Done()d (their stat is released from system)*)
-(* and forgotten together with the per-peer sub-scopes.  IsUnused does not *)
-(* look at memory; with FaithfulGC = FALSE the environment runs the GC     *)
-(* only when that makes no difference.                                     *)
+(* Scope GC (resourceManager.gc): protocol and peer scopes with refCnt <= 0,*)
+(* no streams/conns/fd and no reserved memory are Done()d and forgotten    *)
+(* together with the per-peer sub-scopes.                                  *)
 (***************************************************************************)
 NoSCF(u) == u.si = 0 /\ u.so = 0 /\ u.ci = 0 /\ u.co = 0 /\ u.fd = 0
-Unused(ww, s) == ww.ref[s] <= 0 /\ NoSCF(ww.use[s])
-GCSafe(ww) == \A s \in GCable : Unused(ww, s) => ww.use[s].mem = 0
+\* IsUnused (since 8b34800 a scope that still holds reserved memory is in use)
+Unused(ww, s) == ww.ref[s] <= 0 /\ NoSCF(ww.use[s]) /\ ww.use[s].mem = 0
 RECURSIVE SumMem(_, _)
 SumMem(ww, S) == IF S = {} THEN 0 ELSE LET x == CHOOSE y \in S : TRUE IN ww.use[x].mem + SumMem(ww, S \ {x})
 RECURSIVE StripSum(_, _)      \* sum of the releases on scope x still pending in a script
@@ -463,7 +461,7 @@ InFlightRel(ww, T, h) ==
 CallOK(ww, c) == /\ c.name = "release" =>
                       IF IsDone(ww, c.h) THEN c.n = MinOf({m \in Sizes : m > 0})
                       ELSE c.n + InFlightRel(ww, ThreadIds, c.h) <= ww.held[c.h]
-                 \* keeps the instance finite where the GC forgets memory (FaithfulGC)
+                 \* keeps instances with unlimited scopes finite
                  /\ c.name = "reserve" => ww.held[c.h] + c.n <= HeldCap
 
 (***************************************************************************)
@@ -484,7 +482,6 @@ SeqCall == /\ Quiet(w)
                      /\ w' = r.w
                      /\ op' = c @@ [err |-> r.err]
 GC == /\ "gc" \in Kinds
-      /\ FaithfulGC \/ GCSafe(w)
       /\ w' = GCStep(w)
       /\ op' = [name |-> "gc"]
 \* concurrent mode: a caller starts a call on objects no other call in flight has locked ...
